@@ -262,6 +262,26 @@ func (q c02Data) eval(s *c02Stream, _ time.Time) bool {
 	return re.MatchString(s.cData) || re.MatchString(s.sData)
 }
 
+// a tag filter: decided streams follow the stored match set, undecided ones the tag's definition
+type c02TagModel struct {
+	Name      string
+	Matches   map[uint64]bool
+	Uncertain map[uint64]bool
+	Def       c02Q
+}
+
+var c02Tags []*c02TagModel // tags of the current population (definitions only name earlier tags)
+
+type c02Tag struct{ T *c02TagModel }
+
+func (q c02Tag) str() string { return "tag:" + q.T.Name }
+func (q c02Tag) eval(s *c02Stream, r time.Time) bool {
+	if q.T.Uncertain[s.ID] {
+		return q.T.Def.eval(s, r)
+	}
+	return q.T.Matches[s.ID]
+}
+
 type c02And struct{ A, B c02Q }
 type c02Or struct{ A, B c02Q }
 type c02Not struct{ A c02Q }
@@ -338,6 +358,9 @@ func genRanges(rng *rand.Rand, vals []int64) []c02Range {
 }
 
 func genAtom(rng *rand.Rand, withData bool) c02Q {
+	if len(c02Tags) > 0 && rng.Intn(3) == 0 {
+		return c02Tag{c02Tags[rng.Intn(len(c02Tags))]}
+	}
 	n := 6
 	if withData {
 		n = 8
@@ -438,6 +461,10 @@ func nfSize(q c02Q) (n, k float64) {
 		if x.Key == "data" {
 			n = 2
 		}
+	case c02Tag:
+		// inlined as (decided) or (undecided and definition)
+		n1, k1 := nfSize(x.T.Def)
+		n, k = 1+n1, 1+k1
 	case c02And:
 		n1, k1 := nfSize(x.A)
 		n2, k2 := nfSize(x.B)
@@ -513,6 +540,15 @@ func sortCmp(keys []c02Sort, a, b *c02Stream) int {
 	return 0
 }
 
+func keys(m map[uint64]bool) []uint64 {
+	var l []uint64
+	for k := range m {
+		l = append(l, k)
+	}
+	sort.Slice(l, func(i, j int) bool { return l[i] < l[j] })
+	return l
+}
+
 type c02Failure struct {
 	Class  string `json:"class"`
 	Input  string `json:"input"`
@@ -585,9 +621,66 @@ func TestC02Standin(t *testing.T) {
 			}
 			readers = append(readers, r)
 		}
+		// tags (only when asked for): match/undecided sets over the stream ids and a definition that may
+		// name earlier tags; the search gets them as TagDetails and must agree with the direct reading
+		c02Tags = nil
+		tagDetails := map[string]query.TagDetails(nil)
+		tagDesc := ""
+		if os.Getenv("C02_TAGS") != "" {
+			tagDetails = map[string]query.TagDetails{}
+			for ti, tn := range []string{"ta", "tb", "tc"} {
+				tm := &c02TagModel{Name: tn, Matches: map[uint64]bool{}, Uncertain: map[uint64]bool{}}
+				var def c02Q
+				for {
+					def = genQuery(rng, 1+rng.Intn(2), false, false)
+					if n, _ := nfSize(def); n <= 12 {
+						break
+					}
+				}
+				tm.Def = def
+				td := query.TagDetails{}
+				for id := range visible {
+					switch rng.Intn(3) {
+					case 0:
+						tm.Matches[id] = true
+						td.Matches.Set(uint(id))
+					case 1:
+						tm.Uncertain[id] = true
+						td.Uncertain.Set(uint(id))
+						if rng.Intn(2) == 0 {
+							td.Matches.Set(uint(id)) // a stale match bit under an undecided stream must not matter
+						}
+					}
+				}
+				dq, err := query.Parse(def.str())
+				if err != nil {
+					t.Fatalf("tag definition %q: %v", def.str(), err)
+				}
+				td.Conditions = dq.Conditions
+				tagDetails["tag/"+tn] = td
+				tagDesc += fmt.Sprintf(" tag/%s=%q undecided=%v matches=%v", tn, def.str(), keys(tm.Uncertain), keys(tm.Matches))
+				c02Tags = append(c02Tags, tm) // later definitions may name this tag
+				_ = ti
+			}
+		}
 		pop, _ := json.Marshal(versions)
 		for qi := 0; qi < nq; qi++ {
 			ast := genQuery(rng, 1+rng.Intn(3), qi%2 == 0, false)
+			if len(c02Tags) == 3 && rng.Intn(5) == 0 {
+				// several tag filters in one conjunction (the undecided variants multiply)
+				var parts []c02Q
+				for _, tm := range c02Tags {
+					var a c02Q = c02Tag{tm}
+					if rng.Intn(3) == 0 {
+						a = c02Not{a}
+					}
+					parts = append(parts, a)
+				}
+				ast = c02And{parts[0], c02And{parts[1], parts[2]}}
+				if rng.Intn(2) == 0 {
+					ast = c02And{ast, genQuery(rng, 0, false, true)}
+				}
+			}
 			if n, _ := nfSize(ast); n > 120 {
 				continue
 			}
@@ -618,7 +711,7 @@ func TestC02Standin(t *testing.T) {
 				skip = limit * uint(rng.Intn(3))
 			}
 			qs := ast.str() + sortStr
-			input := fmt.Sprintf("query=%q limit=%d skip=%d indexes=%d population=%s", qs, limit, skip, nIdx, pop)
+			input := fmt.Sprintf("query=%q limit=%d skip=%d indexes=%d%s population=%s", qs, limit, skip, nIdx, tagDesc, pop)
 			if tr := os.Getenv("C02_TRACE"); tr != "" {
 				os.WriteFile(tr, []byte(input), 0o644)
 			}
@@ -628,7 +721,7 @@ func TestC02Standin(t *testing.T) {
 				continue
 			}
 			evals++
-			res, more, _, err := SearchStreams(context.Background(), readers, nil, q.ReferenceTime, q.Conditions, q.Grouping, q.Sorting, limit, skip, nil, map[string]ConverterAccess{}, false)
+			res, more, _, err := SearchStreams(context.Background(), readers, nil, q.ReferenceTime, q.Conditions, q.Grouping, q.Sorting, limit, skip, tagDetails, map[string]ConverterAccess{}, false)
 			if err != nil {
 				fail("search-error", input, err.Error())
 				continue
